@@ -14,6 +14,7 @@ structure Req where
   fills : Nat
   seeds : Nat
   songs : List String
+  optimized : Bool := false
 
 def countList (s : String) : Nat := ((s.splitOn ",").filter (· ≠ "")).length
 
@@ -23,7 +24,8 @@ def parseReq (arg : String) : Req := Id.run do
     if t.startsWith "D:" then pure ()
     else if t.startsWith "F:" then r := { r with fills := countList (t.drop 2).toString }
     else if t.startsWith "P:" then r := { r with seeds := countList (t.drop 2).toString }
-    else if t == "V" ∨ t == "O" then pure ()
+    else if t == "V" then pure ()
+    else if t == "O" then r := { r with optimized := true }
     else r := { r with songs := r.songs ++ [t] }
   return r
 
@@ -50,7 +52,7 @@ def model (arg : String) : String :=
   if r.songs.isEmpty then "bad-request" else
   let (a, p) := expectedChildren r
   let per := (List.range r.songs.length).zip r.songs |>.map fun (i, tok) =>
-    if tok.startsWith "C:" then s!" | s{i} seq={predictSeq tok} diff=-" else s!" | s{i} diff=-"
+    if tok.startsWith "C:" ∧ !r.optimized then s!" | s{i} seq={predictSeq tok} diff=-" else s!" | s{i} diff=-"
   s!"hist n={r.songs.length} asan={a} plain={p}" ++ String.join per
 
 def fieldOf (toks : List String) (k : String) : Option String :=
